@@ -242,6 +242,13 @@ def run(ctx):
         ctx.violation(f)
         return
 
+    f = core.run_random(ctx, random_shard, 4000, 40000)
+    if f is not None:
+        ctx.violation(f)
+
+
+def random_shard(st, shard, nshards, payload):
+    from hypothesis import strategies as hs
     kinds = {'PL': 'pl', 'LTL': 'ltl_path', 'CTLS': 'ctls_path', 'CTL': 'ctl'}
 
     @hs.composite
@@ -277,6 +284,6 @@ def run(ctx):
         st.bump('random triples')
         return check_clone({'logic': logic, 'f': ta})
 
-    f = core.run_hypothesis(ctx, triples(), body, ctx.pick(2000, 30000))
+    f = core.hyp_run(payload['seed'] * 1000 + shard, triples(), body, payload['n'])
     if f is not None:
-        ctx.violation(f)
+        st.failure = f
